@@ -22,6 +22,49 @@ PROPS = {
              "int64 overflow not modelled (|x+dx| < 2^53 as in the property).",
         technique="Lean 4 theorems over an executable model + differential correspondence with the Go code",
     ),
+    "C03": dict(
+        modules=["SpatialId.Props.C03"],
+        families=[("chgExt", 12000, 60000), ("chgSp", 6000, 40000), ("axis", 12000, 100000), ("axisLattice", 1, 1)],
+        trusted_base=COMMON_TB,
+        assumptions=["int64(math.Pow(2, n)) is exact for 0 <= n <= 62"],
+        claim="Theorems (Props/C03.lean over Spec/Region.lean, voxels as subsets of R^3): the zoom-change result is "
+              "duplicate-free, at the requested zooms, and contains a voxel iff that voxel's region meets an input's "
+              "region (change_exact); raising zooms partitions each input into 4^dh*2^dv descendants whose union is "
+              "the input; lowering returns the single containing ancestor; floor semantics below ground (neg_floor). "
+              "The model is tied to the Go functions by exact comparison on generated lists (mixed zooms, negative f, "
+              "malformed IDs) and on the full 36x36 zoom-pair lattice of the per-axis helpers.",
+        note="Lean kernel + propext/Classical.choice/Quot.sound (Mathlib reals); model tied by sampling; "
+             "the genuine defect D1 (truncating division for negative f) was repaired by a fix: commit.",
+        technique="Lean 4 theorems over an executable model + differential correspondence with the Go code",
+    ),
+    "C08": dict(
+        modules=["SpatialId.Props.C08"],
+        families=[("nbr", 12000, 80000), ("nN", 3000, 20000)],
+        trusted_base=COMMON_TB,
+        assumptions=["float64 math.Pow/math.Mod on integers below 2^53 are exact"],
+        claim="Theorems (Props/C08.lean): the 6/8/26 queries equal the shifts by explicit stencils (in the Go order), the "
+              "stencils are exactly the unit steps / horizontal ring / 3x3x3 shell (decide); the N-layer result is "
+              "duplicate-free and contains o iff o is a shift of a listed voxel by a non-zero offset of the box; "
+              "negative layers are an error; where 3 <= 2^h there are 6, 8, 26 distinct neighbours, never the voxel "
+              "itself (2H+1 <= 2^h), and the relation is symmetric. Tied to the Go functions by exact comparison.",
+        note="Lean kernel + propext/Classical.choice/Quot.sound; model tied by sampling; the model parses the ID once "
+             "where Go re-parses printed IDs (strconv round trip trusted). D13 repaired by a fix: commit.",
+        technique="Lean 4 theorems over an executable model + differential correspondence with the Go code",
+    ),
+    "C10": dict(
+        modules=["SpatialId.Props.C10"],
+        families=[("notation", 30000, 200000)],
+        trusted_base=COMMON_TB + ["strings.Split/strings.Join are inverse on '/'-free fields (Go library semantics)"],
+        assumptions=[],
+        claim="Theorems (Props/C10.lean): both notation conversions are the stated permutations of the field list, inverse "
+              "to each other on every 4-field ID (and on 5-field IDs with equal zoom fields), reject every other arity, "
+              "preserve list length and order; parsing reads the five numbers in their positions; the expansion of an "
+              "extended ID is duplicate-free, at zoom max(h,v) on both axes, has 4^d resp. 2^d elements and its union "
+              "is exactly the original voxel (over R^3). Tied to the Go functions by exact comparison.",
+        note="Lean kernel + propext/Classical.choice/Quot.sound; model tied by sampling; string split/join and "
+             "integer print/parse are Go library semantics, compared on every case, not proved.",
+        technique="Lean 4 theorems over an executable model + differential correspondence with the Go code",
+    ),
 }
 
 NOT_APPLICABLE = {}
